@@ -224,8 +224,10 @@ Theorem dictionary_copy_in_bounds : forall r dn ps,
   (exists b, dictionary_copy current_pchecks r dn ps = Ok b /\ 0 <= b <= ps).
 Proof.
   intros r dn ps Hps. unfold dictionary_copy. rewrite cur_dict. simpl andb.
-  set (vs := value_size (cr_type r) (cr_type_length r)).
-  assert (Hvs : 0 <= vs) by apply value_size_nonneg.
+  set (vs := dict_value_size (cr_type r) (cr_type_length r)).
+  assert (Hvs : 0 <= vs).
+  { unfold vs, dict_value_size. destruct ((cr_type r =? E_CARQUET_PHYSICAL_BOOLEAN) || (cr_type r =? E_CARQUET_PHYSICAL_BYTE_ARRAY));
+      [lia|apply value_size_nonneg]. }
   destruct ((dn <? 0) || (negb (vs =? 0) && (dn >? ps / vs))) eqn:Ec; [left; eauto|].
   apply orb_false_iff in Ec. destruct Ec as [E1 E2]. apply Z.ltb_ge in E1.
   assert (Hb : 0 <= vs * dn <= ps).
